@@ -82,6 +82,11 @@ func runProperty(p *Program, s *Specs, prop string, cfg SolveConfig) *CheckResul
 		u := &unitResult{key: k, kind: "func", errs: ex.Errs, paths: ex.pathCount}
 		for _, o := range ex.Obls {
 			if keep(o) {
+				if ex.anchorLost && !o.Structural {
+					// the contract of this unit lost an anchor: its obligations cannot speak
+					o.Structural, o.StructOK, o.StructMsg = true, false, "anchor-missing"
+					o.Kind = "anchor-missing"
+				}
 				u.obls = append(u.obls, o)
 			}
 		}
@@ -287,10 +292,19 @@ func report(res *CheckResult, p *Program, repo, tier string, seed int, evidenceP
 	var knownPrinted []string
 	var violLines []string
 	budgetHit := 0
+	anchorLostUnits := map[string]bool{}
+	for _, o := range failed {
+		if o.Kind == "anchor-missing" {
+			anchorLostUnits[o.Func] = true
+		}
+	}
 	for _, o := range failed {
 		if o.Solver == "budget" {
 			budgetHit++
 			continue
+		}
+		if o.Kind == "anchor-missing" || strings.Contains(o.Name, "#row-cover") && anchorLostUnits[o.Func] {
+			continue // reported as UNDECIDED anchor-missing, never as a violation
 		}
 		// known (open) findings suppress exactly the listed obligation
 		matched := false
